@@ -154,17 +154,19 @@ def enum_programs(shapes, req, depth, ops=UNARY + BINARY):
     yield from rec([], shapes, depth)
 
 
-def enum_program_outputs(shapes, req, depth, max_outputs=2, ops=UNARY + BINARY, both_orders=True):
+def enum_program_outputs(shapes, req, depth, max_outputs=2, ops=UNARY + BINARY, both_orders=True, leaf_outputs=False):
     """Yields (prog, outputs): programs of exactly ``depth`` ops and ordered lists of 1..max_outputs
     distinct non-leaf grad-requiring values such that every op is live (canonical: no dead code)."""
     for prog in enum_programs(shapes, req, depth, ops):
         t = Typed(prog)
-        cands = [v for v in range(t.nleaves, t.nvalues) if t.req[v]]
+        cands = [v for v in range(0 if leaf_outputs else t.nleaves, t.nvalues) if t.req[v]]
         nops = len(prog["ops"])
         for r in range(1, max_outputs + 1):
             for outs in itertools.combinations(cands, r):
                 if len(t.live_ops(outs)) != nops:
                     continue
+                if leaf_outputs and not any(v < t.nleaves for v in outs):
+                    continue  # only the additional cases
                 if both_orders:
                     for p in itertools.permutations(outs):
                         yield prog, list(p)
